@@ -46,6 +46,8 @@ plan('C07',
          Job('c07_xml', 'total', 'plain', quick=180000, thorough=3000000, shards=(4, 16)),
          Job('c07_xml', 'trunc', 'asan', quick=4500, thorough=70000, shards=(6, 16)),
          Job('c07_xml', 'trunc', 'plain', quick=4500, thorough=100000, shards=(2, 8)),
+         Job('c07_xml', 'decode_mt', 'plain', quick=96, thorough=960, shards=(8, 16), batch=1),
+         Job('c07_xml', 'decode_mt', 'tsan', quick=24, thorough=200, shards=(8, 16), batch=1, leakcheck=False),
          Job('c07_xml', 'surplus', 'asan', quick=1000, thorough=20000, shards=(2, 4)),
          Job('c07_xml', 'surplus', 'plain', quick=1000, thorough=20000, shards=(1, 2)),
          Job('c07_xml', 'deep', 'asan', quick=54, thorough=54, shards=(6, 6), batch=1),
